@@ -42,7 +42,10 @@ def cliLine (toks : List String) : String :=
         else
           let rc : RCfg := { b := c'.blocksize, w := c'.windowsize, rep := 1, cleanOnError := clean = "1" }
           let lens : List Nat := if script = "-" then [] else (script.splitOn ",").filterMap (·.toNat?)
-          let evs : List REv := (List.range lens.length).zip lens |>.map fun (i, l) => REv.data ((i + 1) % 65536) (genBytes l (i + 1))
+          -- `recv_with_size(blk_size)` of a `UdpSocket` reads into `blk_size + 4` bytes: a DATA datagram longer than the adopted block size
+          -- reaches the worker cut to that size (a peer that ignores what it acknowledged)
+          let evs : List REv := (List.range lens.length).zip lens |>.map fun (i, l) =>
+            REv.data ((i + 1) % 65536) ((genBytes l (i + 1)).take rc.b)
           let run := rRunFrom rc (rInit rc) evs
           -- events after the end are not consumed by the real worker either: `rStep` on an ended state emits nothing
           let acks := (if ack0 then ["A0"] else []) ++ (run.1.flatten.map fun a => s!"A{a.n}")
